@@ -2,6 +2,13 @@
 import json, jsonschema, glob, sys
 jsonschema.validate(json.load(open('/verif/MANIFEST.json')), json.load(open('/root/.vp/MANIFEST.schema.json')))
 es = json.load(open('/root/.vp/EVIDENCE.schema.json'))
+bad = 0
 for f in sorted(glob.glob('/verif/evidence/*.json')):
-    jsonschema.validate(json.load(open(f)), es)
+    d = json.load(open(f))
+    jsonschema.validate(d, es)
+    c = d.get('coverage', {})
+    if 'obligations' in c and c.get('obligations') != c.get('discharged'):
+        print('NOT A VALID PROOF RECORD', f, c.get('obligations'), c.get('discharged'))
+        bad += 1
 print('valid', len(glob.glob('/verif/evidence/*.json')), 'evidence files')
+sys.exit(1 if bad else 0)
